@@ -134,7 +134,8 @@ class LifeRun:
         if dup and front == 'legacy':
             # the legacy front-end attaches the handlers of declared routes when it connects: the second declaration is
             # refused then (the first handler stays) - the other declared routes and after_start are not its business
-            self.app.route('/' + ROUTE % dup)(lambda name, param, app_param: self.problems.append('the refused handler was called'))
+            self.refused = lambda name, param, app_param: None
+            self.app.route('/' + ROUTE % dup)(self.refused)
         elif dup:
             try:
                 self.app.route(self.base + '/' + ROUTE % dup)(lambda name, app_param, reply, context: None)
@@ -340,6 +341,11 @@ class LifeRun:
             att = [enc.Name.to_str(list(k)) for k in self.app._fib.iterkeys()]
         else:
             att = [enc.Name.to_str(list(k)) for k, n in self.app._prefix_tree.iteritems() if n.callback is not None]
+        if self.front == 'legacy' and getattr(self, 'refused', None) is not None:
+            # the declaration that was refused must not have taken the prefix over
+            if any(n.callback is self.refused for _, n in self.app._prefix_tree.iteritems()):
+                if 'the refused second declaration holds the prefix' not in self.problems:
+                    self.problems.append('the refused second declaration holds the prefix')
         pre = self.base + '/r'
         p['attached'] = sorted(int(a[len(pre):]) for a in att if a.startswith(pre))
         p['bg'] = [str(c.get('exception') or c.get('message')) for c in self.old_errors + list(self.loop.errors)]
